@@ -55,7 +55,7 @@ fn flat_rows(polys: &[Polytope]) -> Option<Vec<Row>> {
 
 pub fn regions(rep: &mut Report, tier: Tier) {
     let (n, reps) = if tier == Tier::Quick { (3, 2) } else { (4, 3) };
-    rep.rule = "binary trees (total/partial, scrambled arena indices): polyhedra() and polyhedra_iter() streams vs reference pre-order (depth, index, remaining siblings) and vs the closed path polytope computed from path_to_node, for every skip_subtree position (single and repeated request); find_terminal/evaluate vs exact routing on every lattice point (labels = path of the returned leaf, x satisfies every reported path condition), interior points are routed through the node, terminal regions have disjoint interiors, total trees cover the lattice; non-trivial: tree has >= 2 decisions".into();
+    rep.rule = "binary trees (total/partial, scrambled arena indices): polyhedra() and polyhedra_iter() streams vs reference pre-order (depth, index, remaining siblings) and vs the closed path polytope computed from path_to_node, for every skip_subtree position (single and repeated request); find_terminal/evaluate vs exact routing on every lattice point and on points 2^-30 off every hyperplane (labels = path of the returned leaf, x satisfies every reported path condition), interior points are routed through the node, terminal regions have disjoint interiors, total trees cover the lattice; non-trivial: tree has >= 2 decisions".into();
     rep.bound = format!("shapes with <= {n} decisions x {reps} assignment(s), dims in {{1,2}}, lattice [-3,3]^d step 1/2, all skip positions");
     let sh = shapes(2, n, true);
     let mut idx = 0u64;
@@ -139,7 +139,28 @@ pub fn regions(rep: &mut Report, tier: Tier) {
             }
             // 4/5/7: evaluation vs regions on the lattice
             let total = s.is_total();
-            for pnt in lattice(d) {
+            // lattice points, plus points a hair (2^-30) off every hyperplane on its strict side: the routing test is exact, it has no tolerance
+            let mut points = lattice(d);
+            let eps = Q::new(1, 1 << 30);
+            for (_, nd) in &x.nodes {
+                if nd.isleaf {
+                    continue;
+                }
+                for (row, b) in nd.aff.mat.iter().zip(nd.aff.bias.iter()) {
+                    if let Some(i) = row.iter().position(|c| !c.is_zero()) {
+                        for p in lattice(d) {
+                            if crate::q::dot(row, &p) == *b {
+                                let mut q = p.clone();
+                                q[i] = q[i] + if row[i] > Q::ZERO { eps } else { Q::ZERO - eps };
+                                points.push(q);
+                            }
+                        }
+                    }
+                }
+            }
+            points.sort_by(|a, b| format!("{a:?}").cmp(&format!("{b:?}")));
+            points.dedup();
+            for pnt in points {
                 let (route, leaf) = x.route(&pnt);
                 let arr = to_arr(&pnt);
                 let got = t.find_terminal(t.tree.get_root(), &arr);
